@@ -34,7 +34,25 @@ pub fn mem_copy_opt(
     modified |= local_copy_prop_prememcpy(context, analyses, function)?;
     modified |= load_store_to_memcopy(context, function)?;
     modified |= local_copy_prop(context, analyses, function)?;
+    modified |= remove_self_copies(context, function);
     Ok(modified)
+}
+
+/// Copying a memory range onto itself (e.g., `a = a` after copy propagation) does nothing,
+/// but the FuelVM panics on an MCP with overlapping ranges, so such copies must not reach it.
+fn remove_self_copies(context: &mut Context, function: Function) -> bool {
+    let to_delete: FxHashSet<Value> = function
+        .instruction_iter(context)
+        .filter_map(|(_, inst)| {
+            let (dst_ptr, src_ptr, byte_len) = deconstruct_memcpy(context, inst)?;
+            memory_utils::must_alias(context, dst_ptr, byte_len, src_ptr, byte_len).then_some(inst)
+        })
+        .collect();
+    if to_delete.is_empty() {
+        return false;
+    }
+    function.remove_instructions(context, |v| to_delete.contains(&v));
+    true
 }
 
 struct InstInfo {
